@@ -185,3 +185,65 @@ def strip_shortcuts(t, goal_pat, identity_pat, empty_pat="Stream::Empty", b=None
                 errs.append("shortcut for a failing goal yields %s, expected the empty stream" % show(tres, maxdepth=4)[:160])
         t = els
     return t, b, errs
+
+
+# ----------------------------------------------------------------------
+# path-literal enumeration (K6) over if / if-let / match-free block terms
+def cond_cases(c, want):
+    """Ways for condition `c` to evaluate to `want`: list of literal lists [(term, bool), ...]."""
+    if isinstance(c, tuple) and c and c[0] == "unop" and c[1] == "Not":
+        return cond_cases(c[2], not want)
+    if isinstance(c, tuple) and c and c[0] == "binop" and c[1] == "And":
+        if want:
+            return [a + b for a in cond_cases(c[2], True) for b in cond_cases(c[3], True)]
+        return cond_cases(c[2], False) + [a + b for a in cond_cases(c[2], True) for b in cond_cases(c[3], False)]
+    if isinstance(c, tuple) and c and c[0] == "binop" and c[1] == "Or":
+        if want:
+            return cond_cases(c[2], True) + [a + b for a in cond_cases(c[2], False) for b in cond_cases(c[3], True)]
+        return [a + b for a in cond_cases(c[2], False) for b in cond_cases(c[3], False)]
+    return [[(c, want)]]
+
+
+def block_paths(t, limit=256):
+    """Acyclic paths through a block term: yields (literals, effects, terminal) where terminal is
+    None (falls through), ('ret', x), ('break', x) or ('continue',). Loops are opaque effects."""
+    out = []
+
+    def go(stmts, i, lits, effs):
+        if len(out) > limit:
+            return
+        if i == len(stmts):
+            out.append((lits, effs, None))
+            return
+        s = stmts[i]
+        if not isinstance(s, tuple) or not s:
+            return go(stmts, i + 1, lits, effs)
+        if s[0] == "let":
+            # a let whose value is an if/match with effects is not expanded; keep as effect
+            return go(stmts, i + 1, lits, effs + [s])
+        if s[0] == "if":
+            for want, br in ((True, s[2]), (False, s[3])):
+                for case in cond_cases(s[1], want):
+                    sub = stmts_of(br) if br is not None else []
+                    go(sub + [("__join__",)] + stmts[i + 1 :], 0, lits + case, effs)
+            return
+        if s[0] == "match":
+            for p, g, b in s[2]:
+                lit = [(("matches", s[1], p), True)]
+                if g is not None:
+                    for case in cond_cases(g, True):
+                        go(stmts_of(b) + [("__join__",)] + stmts[i + 1 :], 0, lits + lit + case, effs)
+                else:
+                    go(stmts_of(b) + [("__join__",)] + stmts[i + 1 :], 0, lits + lit, effs)
+            return
+        if s[0] in ("ret", "break", "continue"):
+            out.append((lits, effs, s))
+            return
+        if s[0] == "__join__":
+            return go(stmts, i + 1, lits, effs)
+        if s[0] == "seq":
+            return go(stmts_of(s) + stmts[i + 1 :], 0, lits, effs)
+        return go(stmts, i + 1, lits, effs + [s])
+
+    go(stmts_of(t), 0, [], [])
+    return out
